@@ -195,7 +195,7 @@ CHECKS = {
         "crate": "light",
         "bin": "c16_own",
         "level": "exploration",
-        "miri": {"package": "c16_miri", "workloads_quick": 6, "seeds_quick": 64, "workloads_thorough": 48, "seeds_thorough": 256, "preemption_rate": 0.05},
+        "miri": {"package": "c16_miri", "workloads_quick": 6, "seeds_quick": 64, "workloads_thorough": 24, "seeds_thorough": 128, "preemption_rate": 0.05},
         "rule": "stage 1 (tape-driven, single caller thread): one run = one history of 4-44 ownership operations on a pool of handles (new standard / custom-owner region, clone, word slice, wrap in Int32Array, "
                 "bit view as BooleanBuffer, BooleanArray with a validity mask at its own bit offset, into_mutable -> mutate -> freeze, into_vec, unary_mut / into_builder, &= |= ^=, claim on a shared "
                 "TrackingMemoryPool, export and import over the C Data Interface, a round trip of 1-3 arrays through the C Stream Interface, drop; final drops in a tape-chosen order) checked after EVERY step against a model of regions (visible bytes, release counter of "
